@@ -22,7 +22,7 @@ EXPLANATION = ("bins.bins is executed symbolically from its real AST for fmt in 
 TRUSTED = ["contracts/spec_bins.py (specification of the 5-level scheme, from the statement)"]
 ASSUMPTIONS = ["Python ints are mathematical integers; x >> k == floor(x / 2**k)"]
 PRECONDITIONS = ["bins: start, stop are ints (None -> TypeError clause); fmt in {'gff','bed'}"]
-FUNCTIONS = ["gffutils.bins:bins", "gffutils.feature:Feature.calc_bin", "gffutils.feature:Feature.astuple",
+FUNCTIONS = ["gffutils.create:_GTFDBCreator._update_relations", "gffutils.create:_DBCreator._insert", "gffutils.create:_DBCreator._replace", "gffutils.interface:FeatureDB._insert", "gffutils.interface:FeatureDB._update", "gffutils.bins:bins", "gffutils.feature:Feature.calc_bin", "gffutils.feature:Feature.astuple",
              "gffutils.helpers:_bin_from_dict"]
 
 
